@@ -1038,7 +1038,7 @@ func (s *c19Setup) data(img *c19Img) map[string]interface{} {
 func c19SampleAndCheck(r *fw.Rec, s *c19Setup, img *c19Img, class string) bool {
 	exp := c19Expected(s.h, s.dimX, s.dimY, img)
 	sampler := common.GridSampler_GetInstance()
-	for _, api := range []string{"SampleGrid", "SampleGridWithTransform", "SampleGridWithTransform(second call, same transform)"} {
+	for _, api := range []string{"SampleGrid", "SampleGridWithTransform", "SampleGridWithTransform(second call, same transform)", "SampleGrid[corners listed in the opposite winding]"} {
 		before := verifhook.OOBReads()
 		var bits *gozxing.BitMatrix
 		var err error
@@ -1063,6 +1063,13 @@ func c19SampleAndCheck(r *fw.Rec, s *c19Setup, img *c19Img, class string) bool {
 			before = verifhook.OOBReads()
 			bits, err = sampler.SampleGridWithTransform(img.bm, s.dimX, s.dimY, t)
 			r.Tally("calls_second_call_same_transform")
+		} else if strings.HasSuffix(api, "]") {
+			// the same four correspondences, listed the other way round (first, fourth, third,
+			// second corner): the same map, hence the same samples
+			bits, err = sampler.SampleGrid(img.bm, s.dimX, s.dimY,
+				s.src[0][0], s.src[0][1], s.src[3][0], s.src[3][1], s.src[2][0], s.src[2][1], s.src[1][0], s.src[1][1],
+				s.dst[0][0], s.dst[0][1], s.dst[3][0], s.dst[3][1], s.dst[2][0], s.dst[2][1], s.dst[1][0], s.dst[1][1])
+			r.Tally("calls_corners_in_the_opposite_winding")
 		} else if api == "SampleGrid" {
 			bits, err = sampler.SampleGrid(img.bm, s.dimX, s.dimY,
 				s.src[0][0], s.src[0][1], s.src[1][0], s.src[1][1], s.src[2][0], s.src[2][1], s.src[3][0], s.src[3][1],
@@ -1745,6 +1752,7 @@ func c19(c *fw.Ctx) {
 	c.Floor("calls_matrix_compared_image_noise", 100)
 	c.Floor("calls_beyond_band_notfound", 100)
 	c.Floor("calls_second_call_same_transform", 1000)
+	c.Floor("calls_corners_in_the_opposite_winding", 1000)
 	c.Floor("direct_beyond_band_notfound", 500)
 	for _, p := range c19Passes {
 		for _, b := range c19Bands {
